@@ -26,6 +26,9 @@ pub enum Behaviour {
     /// Answer with the status after a virtual delay given in milliseconds (an endpoint with an
     /// ordinary round-trip time).
     LateMs(u64, u16),
+    /// Hold the answer until the given virtual instant (ns since the world's start), then answer
+    /// with the status: every request held like this is answered in one and the same instant.
+    HeldUntil(u64, u16),
 }
 
 impl Behaviour {
@@ -36,6 +39,7 @@ impl Behaviour {
             Behaviour::Refuse => "refuse".into(),
             Behaviour::Late(d, s) => format!("late{}s-{}", d, s),
             Behaviour::LateMs(d, s) => format!("late{}ms-{}", d, s),
+            Behaviour::HeldUntil(_, s) => format!("held-{}", s),
         }
     }
     pub fn accepted(&self) -> bool {
@@ -276,6 +280,15 @@ async fn serve_conn(mut stream: TcpStream, log: Arc<Mutex<Vec<PostRec>>>, script
         }
         Behaviour::LateMs(ms, code) => {
             tokio::time::sleep(Duration::from_millis(ms)).await;
+            let _ = respond(&mut stream, code).await;
+            log.lock().unwrap()[idx].vt_answer = Some(w.vt());
+            linger(&mut stream, code).await;
+        }
+        Behaviour::HeldUntil(at, code) => {
+            let now = w.vt();
+            if at > now {
+                tokio::time::sleep(Duration::from_nanos(at - now)).await;
+            }
             let _ = respond(&mut stream, code).await;
             log.lock().unwrap()[idx].vt_answer = Some(w.vt());
             linger(&mut stream, code).await;
